@@ -103,36 +103,59 @@ def isValid (force : Bool) (e : Env P) : Bool :=
   && !(e.mateZone != 0 && e.tournament != 0 && decide (e.tournament > e.mateZone))
 
 /-- `search<T,ES>::tune_parameters`; `term0` = `prob_.sset.terminals(0)`
-    (the auto-tuned `patch_length` is kept below `code_length`: fix a44e556) -/
+    (the auto-tuned `patch_length` is kept below `code_length`: fix a44e556; every default is
+    adjusted to the related parameters the user did set: fix "defaults contradict user settings") -/
 def tuneBase (d : Env P) (term0 : Nat) (u : Env P) : Env P :=
+  let code := if u.codeLength = 0 then max d.codeLength (u.patchLength + 1) else u.codeLength
+  let ind  := if u.individuals = 0 then max d.individuals (max u.minIndividuals u.tournament) else u.individuals
+  let tour := if u.tournament = 0
+              then min d.tournament (min ind (if u.mateZone = 0 then d.tournament else u.mateZone))
+              else u.tournament
   { u with
-    codeLength     := if u.codeLength = 0 then d.codeLength else u.codeLength
-    patchLength    := if u.patchLength = 0
-                      then min (1 + term0 / 2) ((if u.codeLength = 0 then d.codeLength else u.codeLength) - 1)
-                      else u.patchLength
+    codeLength     := code
+    patchLength    := if u.patchLength = 0 then min (1 + term0 / 2) (code - 1) else u.patchLength
     elitism        := if u.elitism = .unknown then d.elitism else u.elitism
     pMutation      := if neg u.pMutation then d.pMutation else u.pMutation
     pCross         := if neg u.pCross then d.pCross else u.pCross
     brood          := if u.brood = 0 then d.brood else u.brood
     layers         := if u.layers = 0 then d.layers else u.layers
-    individuals    := if u.individuals = 0 then d.individuals else u.individuals
-    minIndividuals := if u.minIndividuals = 0 then d.minIndividuals else u.minIndividuals
-    tournament     := if u.tournament = 0 then d.tournament else u.tournament
-    mateZone       := if u.mateZone = 0 then d.mateZone else u.mateZone
+    individuals    := ind
+    minIndividuals := if u.minIndividuals = 0 then min d.minIndividuals ind else u.minIndividuals
+    tournament     := tour
+    mateZone       := if u.mateZone = 0 then max d.mateZone tour else u.mateZone
     generations    := if u.generations = 0 then d.generations else u.generations
     maxStuck       := if u.maxStuck.isNone then d.maxStuck else u.maxStuck }
+
+/-- `src_search`: the number of layers computed from the size of the training set -/
+def srcLayers (lnF : Nat → Nat) (d : Env P) (dsize : Nat) (u : Env P) : Nat :=
+  if u.layers = 0 then (if d.layers > 1 ∧ dsize > 8 then lnF dsize else d.layers) else u.layers
+
+/-- `src_search`: the population size computed from the size of the training set (at least 4) -/
+def srcInd (lnF cubeF : Nat → Nat) (d : Env P) (dsize : Nat) (u : Env P) : Nat :=
+  let ind0 := if dsize > 8 then 2 * cubeF dsize / srcLayers lnF d dsize u else d.individuals
+  if ind0 < 4 then 4 else ind0
+
+omit [ProbOps P] in
+theorem four_le_srcInd (lnF cubeF : Nat → Nat) (d : Env P) (dsize : Nat) (u : Env P) :
+    4 ≤ srcInd lnF cubeF d dsize u := by
+  unfold srcInd
+  simp only
+  generalize (if dsize > 8 then _ else _) = y
+  split <;> omega
 
 /-- `src_search<T,ES>::tune_parameters`; `dsize` = `training_data().size()`,
     `lnF dsize` = `static_cast<unsigned>(std::log(dsize))`,
     `cubeF dsize` = `static_cast<unsigned>(std::pow(std::log2(dsize), 3))`.
+    The computed population is raised to the user's `min_individuals` / `tournament_size` and a
+    default tournament is cut down to it.
     (The two `typeid(this->vs_.get()) == typeid(…)` tests compare a pointer type with a class
     type and are always false: `dss` / `validation_percentage` are never touched.) -/
 def tuneSrc (lnF cubeF : Nat → Nat) (d : Env P) (term0 dsize : Nat) (u : Env P) : Env P :=
   let e := tuneBase d term0 u
-  let layers := if u.layers = 0 then (if d.layers > 1 ∧ dsize > 8 then lnF dsize else d.layers) else e.layers
-  let ind0 := if dsize > 8 then 2 * cubeF dsize / layers else d.individuals
-  let ind := if u.individuals = 0 then (if ind0 < 4 then 4 else ind0) else e.individuals
-  { e with layers := layers, individuals := ind }
+  let ind := if u.individuals = 0 then max (srcInd lnF cubeF d dsize u) (max u.minIndividuals u.tournament)
+             else e.individuals
+  let tour := if u.individuals = 0 ∧ u.tournament = 0 then min e.tournament ind else e.tournament
+  { e with layers := srcLayers lnF d dsize u, individuals := ind, tournament := tour }
 
 /-- `basic_ga_search<T,ES,F>::tune_parameters` (the minimum of 10 is capped by the population
     size: fix a334a4f) -/
@@ -182,8 +205,8 @@ theorem tuneBase_defined (d : Env P) (hd : Defined d) (hcode : 2 ≤ d.codeLengt
     (u : Env P) (hu : u.codeLength ≠ 1) : Defined (tuneBase d term0 u) := by
   obtain ⟨h1, h2, h3, h4, h5, h6, h7, h8, h9, h10, h11, h12, h13⟩ := hd
   unfold Defined tuneBase
-  refine ⟨?_, ?_, ?_, ?_, ?_, ?_, ?_, ?_, ?_, ?_, ?_, ?_, ?_⟩ <;> simp only <;> split <;>
-    first | assumption | omega | (split <;> omega) | (cases hm : u.maxStuck <;> simp_all)
+  refine ⟨?_, ?_, ?_, ?_, ?_, ?_, ?_, ?_, ?_, ?_, ?_, ?_, ?_⟩ <;> simp only <;> (repeat' split) <;>
+    first | assumption | omega | (cases hm : u.maxStuck <;> simp_all)
 
 theorem tuneGa_defined (d : Env P) (hd : Defined d) (hcode : 2 ≤ d.codeLength) (term0 : Nat)
     (u : Env P) (hu : u.codeLength ≠ 1) : Defined (tuneGa d term0 u) := by
@@ -197,19 +220,25 @@ theorem tuneSrc_defined (lnF cubeF : Nat → Nat) (hln : ∀ n, 8 < n → lnF n 
     (hd : Defined d) (hcode : 2 ≤ d.codeLength) (term0 dsize : Nat) (u : Env P) (hu : u.codeLength ≠ 1) :
     Defined (tuneSrc lnF cubeF d term0 dsize u) := by
   have h := tuneBase_defined d hd hcode term0 u hu
-  obtain ⟨h1, h2, h3, h4, h5, h6, h7, h8, h9, h10, h11, h12, h13⟩ := h
-  refine ⟨h1, h2, h3, h4, h5, h6, ?_, ?_, h9, h10, h11, h12, h13⟩
-  · simp only [tuneSrc]
+  have h4 := four_le_srcInd lnF cubeF d dsize u
+  obtain ⟨h1, h2, h3, h4', h5, h6, h7, h8, h9, h10, h11, h12, h13⟩ := h
+  refine ⟨h1, h2, h3, h4', h5, h6, ?_, ?_, h9, ?_, h11, h12, h13⟩
+  · simp only [tuneSrc, srcLayers]
     split
     · split
       · rename_i h; exact hln _ h.2
       · exact hd.2.2.2.2.2.2.1
-    · exact h7
+    · assumption
   · simp only [tuneSrc]
     split
-    · generalize (if dsize > 8 then _ else _) = x
-      split <;> omega
+    · omega
     · exact h8
+  · simp only [tuneSrc]
+    split
+    · rename_i hc
+      simp only [hc.1, if_true]
+      omega
+    · exact h10
 
 /-! ### the user's own settings are kept -/
 
@@ -243,9 +272,10 @@ theorem tuneSrc_keeps (lnF cubeF : Nat → Nat) (d : Env P) (term0 dsize : Nat) 
     Keeps 0 u (tuneSrc lnF cubeF d term0 dsize u) := by
   have h := tuneBase_keeps d term0 u
   obtain ⟨h1, h2, h3, h4, h5, h6, h7, h8, h9, h10, h11, h12, h13, h14, h15, h16, h17, h18⟩ := h
-  refine ⟨h1, h2, h3, h4, h5, h6, ?_, ?_, h9, h10, h11, h12, h13, h14, h15, h16, h17, h18⟩
-  · intro h; simp only [tuneSrc, h, if_false]; exact h7 h
+  refine ⟨h1, h2, h3, h4, h5, h6, ?_, ?_, h9, ?_, h11, h12, h13, h14, h15, h16, h17, h18⟩
+  · intro h; simp only [tuneSrc, srcLayers, h, if_false]
   · intro h; simp only [tuneSrc, h, if_false]; exact h8 h
+  · intro h; simp only [tuneSrc, h, and_false, if_false]; exact h10 h
 
 theorem tuneGa_keeps (d : Env P) (term0 : Nat) (u : Env P) : Keeps 10 u (tuneGa d term0 u) := by
   have h := tuneBase_keeps d term0 u
@@ -263,41 +293,67 @@ theorem dflt_single (laws : ProbLaws P) (L : Nat) : Single (Env.dflt L : Env P) 
   have := laws.mut_ok; have := laws.cross_ok; have := laws.same_ok
   simp_all [Single, Env.dflt]
 
-theorem tuneBase_single (laws : ProbLaws P) (L term0 : Nat) (u : Env P) (h : Single u) :
-    Single (tuneBase (Env.dflt L) term0 u) := by
+/-- (`individuals = 1` cannot be completed: `min_individuals` must be ≥ 2 and ≤ `individuals`) -/
+theorem tuneBase_single (laws : ProbLaws P) (L term0 : Nat) (u : Env P) (h : Single u)
+    (hpop : u.individuals ≠ 1) : Single (tuneBase (Env.dflt L) term0 u) := by
   have hm := laws.mut_ok; have hc := laws.cross_ok
   obtain ⟨h1, h2, h3, h4, h5, h6, h7⟩ := h
   unfold Single tuneBase Env.dflt
-  refine ⟨?_, ?_, ?_, h4, h5, h6, ?_⟩ <;> simp only <;> split <;> simp_all
+  refine ⟨?_, ?_, ?_, h4, h5, h6, ?_⟩ <;> simp only <;> (repeat' split) <;>
+    first | omega | simp_all
 
 theorem tuneBase_untuned (d : Env P) (term0 : Nat) (u : Env P) (h : Untuned u) :
     Untuned (tuneBase d term0 u) := h
 
-/-- `search::tune_parameters` ends in a state that passes `is_valid(true)` exactly when the
-    cross-field checks hold on the tuned values -/
+/-- every default `search::tune_parameters` fills in is adjusted to the parameters the user set:
+    the cross-field checks hold on the tuned values -/
+theorem tuneBase_cross (L term0 : Nat) (u : Env P) (hs : Single u) (hc : Cross u) :
+    Cross (tuneBase (Env.dflt L : Env P) term0 u) := by
+  obtain ⟨c1, c2, c3, c4⟩ := hc
+  have h1 := hs.1
+  unfold Cross tuneBase Env.dflt
+  refine ⟨?_, ?_, ?_, ?_⟩ <;> simp only <;> intro _ _ <;> (repeat' split) <;> omega
+
+theorem tuneSrc_cross (lnF cubeF : Nat → Nat) (L term0 dsize : Nat) (u : Env P) (hs : Single u)
+    (hc : Cross u) : Cross (tuneSrc lnF cubeF (Env.dflt L : Env P) term0 dsize u) := by
+  obtain ⟨c1, c2, c3, c4⟩ := hc
+  have h1 := hs.1
+  have h4 := four_le_srcInd lnF cubeF (Env.dflt L : Env P) dsize u
+  unfold Cross tuneSrc tuneBase
+  generalize srcInd lnF cubeF (Env.dflt L : Env P) dsize u = x at h4
+  simp only [Env.dflt]
+  refine ⟨?_, ?_, ?_, ?_⟩ <;> intro _ _ <;> (repeat' split) <;> omega
+
+theorem tuneGa_cross (L term0 : Nat) (u : Env P) (hs : Single u) (hc : Cross u) :
+    Cross (tuneGa (Env.dflt L : Env P) term0 u) := by
+  obtain ⟨c1, c2, c3, c4⟩ := hc
+  have h1 := hs.1
+  unfold Cross tuneGa tuneBase Env.dflt
+  refine ⟨?_, ?_, ?_, ?_⟩ <;> simp only <;> intro _ _ <;> (repeat' split) <;> omega
+
+/-- **`search::tune_parameters` ends in a state that passes `is_valid(true)`** -/
 theorem tuneBase_valid (laws : ProbLaws P) (L : Nat) (hL : L ≠ 0) (term0 : Nat) (u : Env P)
-    (hv : isValid false u = true) (hu : Untuned u) (hc : Cross (tuneBase (Env.dflt L) term0 u)) :
+    (hv : isValid false u = true) (hu : Untuned u) (hpop : u.individuals ≠ 1) :
     isValid true (tuneBase (Env.dflt L) term0 u) = true := by
   rw [isValid_iff] at hv ⊢
   exact ⟨fun _ => ⟨tuneBase_defined _ (dflt_defined laws L hL) (by simp [Env.dflt]) _ _ hv.2.1.1, hu⟩,
-         tuneBase_single laws L term0 u hv.2.1, hc⟩
+         tuneBase_single laws L term0 u hv.2.1 hpop, tuneBase_cross L term0 u hv.2.1 hv.2.2⟩
 
 theorem tuneSrc_valid (laws : ProbLaws P) (lnF cubeF : Nat → Nat) (hln : ∀ n, 8 < n → lnF n ≠ 0)
     (L : Nat) (hL : L ≠ 0) (term0 dsize : Nat) (u : Env P)
-    (hv : isValid false u = true) (hu : Untuned u)
-    (hc : Cross (tuneSrc lnF cubeF (Env.dflt L) term0 dsize u)) :
+    (hv : isValid false u = true) (hu : Untuned u) (hpop : u.individuals ≠ 1) :
     isValid true (tuneSrc lnF cubeF (Env.dflt L) term0 dsize u) = true := by
   rw [isValid_iff] at hv ⊢
   exact ⟨fun _ => ⟨tuneSrc_defined lnF cubeF hln _ (dflt_defined laws L hL) (by simp [Env.dflt]) _ _ _ hv.2.1.1, hu⟩,
-         tuneBase_single laws L term0 u hv.2.1, hc⟩
+         tuneBase_single laws L term0 u hv.2.1 hpop, tuneSrc_cross lnF cubeF L term0 dsize u hv.2.1 hv.2.2⟩
 
 theorem tuneGa_valid (laws : ProbLaws P) (L : Nat) (hL : L ≠ 0) (term0 : Nat) (u : Env P)
-    (hv : isValid false u = true) (hu : Untuned u) (hpop : u.individuals ≠ 1)
-    (hc : Cross (tuneGa (Env.dflt L) term0 u)) :
+    (hv : isValid false u = true) (hu : Untuned u) (hpop : u.individuals ≠ 1) :
     isValid true (tuneGa (Env.dflt L) term0 u) = true := by
   rw [isValid_iff] at hv ⊢
-  refine ⟨fun _ => ⟨tuneGa_defined _ (dflt_defined laws L hL) (by simp [Env.dflt]) _ _ hv.2.1.1, hu⟩, ?_, hc⟩
-  obtain ⟨h1, h2, h3, h4, h5, h6, h7⟩ := tuneBase_single laws L term0 u hv.2.1
+  refine ⟨fun _ => ⟨tuneGa_defined _ (dflt_defined laws L hL) (by simp [Env.dflt]) _ _ hv.2.1.1, hu⟩, ?_,
+    tuneGa_cross L term0 u hv.2.1 hv.2.2⟩
+  obtain ⟨h1, h2, h3, h4, h5, h6, h7⟩ := tuneBase_single laws L term0 u hv.2.1 hpop
   refine ⟨h1, h2, h3, h4, h5, h6, ?_⟩
   have hi : (tuneBase (Env.dflt L) term0 u).individuals ≠ 1 := by
     simp only [tuneBase, Env.dflt]
@@ -355,8 +411,9 @@ def modelTunedBase : List String :=
    "tournament_size"]
 
 /-- assigned by `src_search::tune_parameters` beyond the base call (`dss` and
-    `validation_percentage` sit behind the always-false `typeid` tests) -/
-def modelTunedSrc : List String := ["dss", "individuals", "layers", "validation_percentage"]
+    `validation_percentage` sit behind the always-false `typeid` tests; a default `tournament_size`
+    is cut down to the computed population) -/
+def modelTunedSrc : List String := ["dss", "individuals", "layers", "tournament_size", "validation_percentage"]
 
 /-- assigned by `basic_ga_search::tune_parameters` beyond the base call -/
 def modelTunedGa : List String := ["min_individuals"]
